@@ -14,16 +14,19 @@
     bits 73 / 137 / 169.  The rows the encoder writes ([C10_rows], Proofs/MsmRows.v, Proofs/SortProofs.v) are
     a permutation of the caller's rows sorted by ascending satellite and, for signal rows, by ascending
     (satellite, signal identifier); every arrangement of the same rows gives the same sorted list, so the
-    encoding does not depend on the caller's order.  Not proved: the decode round trip of the data segment
-    (that the decoder rebuilds the same sets and rows from the masks); covered by the ROUNDTRIP
-    correspondence (model = implementation on every generated message) and by the probe that recomputes
-    masks and rows independently. *)
+    encoding does not depend on the caller's order.  And every non-empty data segment the encoder accepts, the
+    decoder reads without error ([C10_segment_decodes], Proofs/MsmDecode.v): it finds the same masks, the listed
+    satellites in ascending order, exactly the encoder's cells, and as many satellite and signal rows as were
+    given, consuming exactly the bits written.  Not proved: that the decoded row *contents* are the encoded
+    ones in normal form (the column-wise field round trip); covered by the ROUNDTRIP correspondence (model =
+    implementation on every generated message) and by the probe that recomputes masks and rows independently. *)
 From Coq Require Import ZArith List Lia Bool.
 From RtcmModel Require Import Types BitIO SigId Msm Layout Top.
 From RtcmGen Require Import GenSignals GenLayouts.
 From Coq Require Import Sorting.Permutation Sorting.Sorted.
 From RtcmModel Require Import Bias.
-From RtcmProofs Require Import ListZ MsmProofs MsmMasks SortProofs MsmRows.
+From RtcmGen Require Import GenMessages.
+From RtcmProofs Require Import ListZ SigProofs MsmProofs MsmMasks SortProofs MsmRows DecodeFinite MsmDecode.
 Import ListNotations.
 Open Scope Z_scope.
 
@@ -98,6 +101,32 @@ Theorem C10_decode_cells : forall sat_vec sig_vec ccl cm cv, cells_loop (Z.to_na
            (filter (fun j => Z.testbit cm (ccl - 1 - j)) (map (fun k => 0 + Z.of_nat k) (seq 0 (Z.to_nat ccl)))).
 Proof. intros sat_vec sig_vec ccl cm cv. apply cells_loop_spec. Qed.
 
+Lemma C18_tables g : table_ok 2 32 (sig_table g) = true.
+Proof. destruct g; vm_compute; reflexivity. Qed.
+
+(** table obligation: the row fields of every MSM layout meet the field conditions of C08/C02 *)
+Fixpoint msm_specs_ok (f : frag) : bool :=
+  match f with
+  | FMsm _ a b => forallb fok a && forallb fok b
+  | FStruct l => forallb msm_specs_ok l
+  | _ => true
+  end.
+Theorem C10_msm_specs_ok : forallb (fun m => msm_specs_ok (snd m)) messages = true.
+Proof. vm_cast_no_check (eq_refl true). Qed.
+
+(** every non-empty data segment the encoder accepts decodes, never to InvalidSatelliteSignalCount,
+    InvalidSignalId or a buffer overflow, with as many satellite rows and signal rows as were given, and the
+    decoder stops exactly where the encoder stopped *)
+Theorem C10_segment_decodes : forall g a b d o sats sigs d' o', forallb fok a = true -> forallb fok b = true ->
+  bytes_ok d = true -> 0 <= o ->
+  t_encode_frag (FMsm g a b) (d, o) (VStruct [VList sats; VList sigs]) = Ok (d', o') -> ~ (sats = [] /\ sigs = []) ->
+  exists sats' sigs', t_decode_frag (FMsm g a b) d' o = Ok (VStruct [VList sats'; VList sigs'], o') /\
+    length sats' = length sats /\ length sigs' = length sigs.
+Proof.
+  intros g a b d o sats sigs d' o' Ha Hb Hbd Ho H Hne. cbn [t_encode_frag t_decode_frag encode_frag decode_frag] in *.
+  exact (msm_segment_decodes (sig_table g) 2 32 (C18_tables g) a b Ha Hb d o sats sigs d' o' Hbd Ho H Hne).
+Qed.
+
 (** non-vacuity: GPS satellites {5, 3} with signals 1C on 5 and 2W, 1C on 3, listed out of order:
     satellite mask 00101000.., signal mask bits 2 (1C) and 10 (2W), cell mask 11|10 (satellite 3: both, satellite 5: 1C) *)
 Example C10_masks_example :
@@ -141,3 +170,5 @@ Print Assumptions C10_masks.
 Print Assumptions C10_rows.
 Print Assumptions C10_decode_ids.
 Print Assumptions C10_decode_cells.
+Print Assumptions C10_msm_specs_ok.
+Print Assumptions C10_segment_decodes.
